@@ -156,16 +156,19 @@ Section Chunk.
         assert ((yrem0 + PP (i + 1)) / SS = yr2 / SS + cur).
         { rewrite <- Z.div_add by lia. f_equal. lia. }
         lia. }
-      rewrite <- (Z2Nat.id k Hk0) in Hk1, Hk2, Hk3.
-      rewrite (drain_spec c (hist ++ zskipn end_idx ch) num_frames G (Z.to_nat k)); try lia.
-      2:{ fold cur. lia. }
-      cbn [bind]. rewrite Z2Nat.id in * by lia.
+      clearbody k.
+      set (kn := Z.to_nat k).
+      assert (Hkn : Z.of_nat kn = k) by (unfold kn; lia).
+      rewrite (drain_spec c (hist ++ zskipn end_idx ch) num_frames G kn);
+        try (rewrite Hkn); try (fold yr2); try (fold cur); try lia.
+      cbn [bind]. rewrite ?Hkn.
       eexists. split; [reflexivity|].
       unfold LInv. cbn [l_xbuf l_ybuf l_yrem l_copied l_frames].
       rewrite <- HX. fold cur.
-      rewrite zlen_app, zlen_map, zlen_zrange. fold cur. rewrite Z.max_r by lia.
+      rewrite zlen_app, zlen_map, zlen_zrange. fold cur. rewrite (Z.max_r 0 k) by lia.
       repeat split; try lia; try assumption.
-      - rewrite Hfr. rewrite <- map_app. f_equal. rewrite zrange_app by lia. reflexivity.
+      - rewrite Hfr. rewrite <- map_app. f_equal.
+        pose proof (zlen_nonneg (l_frames K ls)). fold cur in H. rewrite zrange_app by lia. reflexivity.
       - f_equal; lia.
     Qed.
 
@@ -182,4 +185,226 @@ Section Chunk.
         exists ls2. split; [exact E2|]. now replace (i + Z.of_nat (S n)) with (i + 1 + Z.of_nat n) by lia.
     Qed.
   End Loop.
+
+  (* ================= the state invariant ================= *)
+  (* [xs]: every sample fed in this utterance; [F]: frames returned so far *)
+  Definition Inv (st : state) (xs : list K) (F : Z) : Prop :=
+    started K st = true
+    /\ xbuf K st = zlastn DD (Z0 ++ xs)
+    /\ 0 <= skip K st
+    /\ 0 <= x_rem K st <= VV
+    /\ 0 <= y_rem K st
+    /\ x_rem K st + y_rem K st < 2 * SS
+    /\ (0 < skip K st -> x_rem K st = 0 /\ y_rem K st = 0 /\ F = 0)
+    /\ zlen xs - x_rem K st = off c - skip K st + F * SS + y_rem K st
+    /\ 0 <= F
+    /\ (1 <= F -> SS <= x_rem K st + y_rem K st)
+    /\ ybuf K st = ybuf_of c xs F (y_rem K st).
+
+  Lemma zlen_Z0_hist (xs : list K) : DD <= zlen (Z0 ++ xs).
+  Proof.
+    rewrite zlen_app, zlen_zrepeat. pose proof (zlen_nonneg xs). lia.
+  Qed.
+
+  Lemma handle_skip_spec st xs F ch : Inv st xs F ->
+    handle_skip c (xbuf K st) (x_rem K st) (skip K st) ch
+    = Ok (zlastn DD (Z0 ++ xs ++ zfirstn (Z.min (skip K st) (zlen ch)) ch),
+          skip K st - Z.min (skip K st) (zlen ch),
+          zskipn (Z.min (skip K st) (zlen ch)) ch).
+  Proof.
+    intros (Hst & Hxb & Hsk & Hxr & Hyr & Hsum & Hskip & Hrel & HF & HFS & Hyb).
+    pose proof (g_S K c G) as HS. pose proof (g_M K c G) as HM. pose proof (g_D K c G) as HD.
+    pose proof (zlen_nonneg ch) as HL.
+    unfold Model.handle_skip.
+    destruct (skip K st =? 0) eqn:E.
+    - replace (Z.min (skip K st) (zlen ch)) with 0 by lia.
+      rewrite zfirstn_nonpos by lia. rewrite app_nil_r. rewrite zskipn_nonpos by lia.
+      rewrite Hxb. repeat f_equal. lia.
+    - destruct Hskip as (-> & _ & _); [lia|]. cbn [Z.eqb negb].
+      set (consumed := Z.min (skip K st) (zlen ch)).
+      assert (Hc : 0 <= consumed <= zlen ch) by (unfold consumed; lia).
+      assert (Lx : zlen (xbuf K st) = DD).
+      { rewrite Hxb. rewrite zlen_zlastn by lia. pose proof (zlen_Z0_hist xs). lia. }
+      rewrite Lx. f_equal. f_equal. f_equal.
+      destruct (consumed <? DD) eqn:E2.
+      + assert (LB : zlen (zfirstn consumed ch) = consumed) by (rewrite zlen_zfirstn; lia).
+        rewrite Hxb. rewrite (app_assoc Z0).
+        rewrite (zlastn_app_shift DD (Z0 ++ xs) (zfirstn consumed ch)).
+        * now rewrite LB.
+        * lia.
+        * apply zlen_Z0_hist.
+        * rewrite LB. lia.
+      + rewrite zlastn_slice by lia. rewrite !app_assoc.
+        symmetry. apply zlastn_app_long; [lia|]. rewrite zlen_zfirstn. lia.
+  Qed.
+
+  (* pure arithmetic of the DFT / frame bookkeeping *)
+  Lemma iterations_valid S V num_raw yrem0 j :
+    0 < S -> 0 < V -> 0 <= num_raw -> 0 <= yrem0 < 2 * S ->
+    let q := num_raw / V in
+    let nf := Z.max 0 ((num_raw + yrem0) / S - 1) in
+    let np := if nf =? 0 then yrem0 else (nf + 1) * S in
+    let nd := if q * V <? np - yrem0 then q + 1 else q in
+    0 <= j < nd -> j * V < num_raw.
+  Proof.
+    intros HS HV Hr Hy q nf np nd Hj.
+    pose proof (div_lo num_raw V HV) as A1. pose proof (div_hi num_raw V HV) as A2. fold q in A1, A2.
+    pose proof (div_lo (num_raw + yrem0) S HS) as B1.
+    destruct (Z_lt_ge_dec j q); [nia|].
+    unfold nd in Hj. destruct (q * V <? np - yrem0) eqn:E; [|lia].
+    assert (j = q) by lia. subst j.
+    unfold np in E. destruct (nf =? 0) eqn:E2; [lia|].
+    unfold nf in *. nia.
+  Qed.
+
+  Lemma final_count S V num_raw yrem0 cur yr :
+    0 < S -> 0 < V -> 0 <= num_raw -> 0 <= yrem0 < 2 * S ->
+    let q := num_raw / V in
+    let nf := Z.max 0 ((num_raw + yrem0) / S - 1) in
+    let np := if nf =? 0 then yrem0 else (nf + 1) * S in
+    let nd := if q * V <? np - yrem0 then q + 1 else q in
+    yr = yrem0 + Z.min (nd * V) num_raw - S * cur ->
+    0 <= yr < 2 * S -> (1 <= cur -> S <= yr) -> 0 <= cur ->
+    cur = nf.
+  Proof.
+    intros HS HV Hr Hy q nf np nd Hyr Hyr2 HyrS Hcur.
+    pose proof (div_lo num_raw V HV) as A1. pose proof (div_hi num_raw V HV) as A2. fold q in A1, A2.
+    pose proof (div_lo (num_raw + yrem0) S HS) as B1.
+    pose proof (div_hi (num_raw + yrem0) S HS) as B2.
+    set (d := (num_raw + yrem0) / S) in *.
+    unfold nd in Hyr. destruct (q * V <? np - yrem0) eqn:E.
+    - (* one extra, partial DFT: everything was processed *)
+      rewrite Z.min_r in Hyr by nia.
+      unfold nf. destruct (Z_le_gt_dec 1 cur); nia.
+    - unfold np in E. rewrite Z.min_l in Hyr by nia.
+      destruct (nf =? 0) eqn:E2.
+      + assert (d <= 1) by (unfold nf in E2; lia).
+        destruct (Z_le_gt_dec 1 cur); [nia|]. unfold nf. lia.
+      + assert (Hnf : nf = d - 1) by (unfold nf in *; lia).
+        rewrite Hnf in *.
+        destruct (Z_le_gt_dec 1 cur); nia.
+  Qed.
+
+  Lemma chunk_body_spec st xs F ch : Inv st xs F ->
+    exists st' fr, chunk_body c st ch = Ok (st', fr)
+      /\ Inv st' (xs ++ ch) (F + zlen fr)
+      /\ fr = map (frame_spec c (xs ++ ch)) (zrange F (zlen fr))
+      /\ dt K st' = dt K st.
+  Proof.
+    intros HI. pose proof HI as (Hst & Hxb & Hsk & Hxr & Hyr & Hsum & Hskip & Hrel & HF & HFS & Hyb).
+    pose proof (g_S K c G) as HS. pose proof (g_M K c G) as HM. pose proof (g_D K c G) as HD.
+    pose proof (zlen_nonneg ch) as HL. pose proof (zlen_nonneg xs) as Hn.
+    unfold Model.chunk_body. rewrite (handle_skip_spec st xs F ch HI). cbn [bind]. cbv zeta.
+    set (consumed := Z.min (skip K st) (zlen ch)).
+    assert (Hc : 0 <= consumed <= zlen ch) by (unfold consumed; lia).
+    set (xs1 := xs ++ zfirstn consumed ch). set (ch1 := zskipn consumed ch).
+    assert (HX : xs1 ++ ch1 = xs ++ ch).
+    { unfold xs1, ch1. rewrite <- app_assoc. now rewrite zfirstn_zskipn. }
+    assert (L1 : zlen ch1 = zlen ch - consumed) by (unfold ch1; rewrite zlen_zskipn; lia).
+    assert (Lx1 : zlen xs1 = zlen xs + consumed).
+    { unfold xs1. rewrite zlen_app, zlen_zfirstn. lia. }
+    replace (Z0 ++ xs ++ zfirstn consumed ch) with (Z0 ++ xs1) by reflexivity.
+    set (num_raw := x_rem K st + zlen ch1).
+    set (nf := Z.max 0 ((num_raw + y_rem K st) / SS - 1)).
+    set (np := if nf =? 0 then y_rem K st else (nf + 1) * SS).
+    set (nd := if num_raw / VV * VV <? np - y_rem K st then num_raw / VV + 1 else num_raw / VV).
+    destruct (Z_lt_ge_dec 0 (skip K st - consumed)) as [Hskp | Hskp].
+    - (* still skipping: the whole chunk was swallowed *)
+      destruct Hskip as (Hx0 & Hy0 & HF0); [lia|].
+      assert (Hcl : consumed = zlen ch) by (unfold consumed in *; lia).
+      assert (Hch1 : ch1 = []) by (apply zlen_zero_nil; lia).
+      assert (Hnr : num_raw = 0) by (unfold num_raw; rewrite Hch1, zlen_nil; lia).
+      assert (Hnf0 : nf = 0).
+      { unfold nf. rewrite Hnr, Hy0. rewrite Z.div_0_l by lia. reflexivity. }
+      assert (Hnd0 : nd = 0).
+      { unfold nd, np. rewrite Hnf0, Hnr, Hy0. rewrite Z.div_0_l by lia. reflexivity. }
+      rewrite Hnd0. cbn [Z.to_nat Model.dft_loop bind l_frames l_copied l_xbuf l_ybuf l_yrem].
+      rewrite Hnf0. cbn [zlen length Z.of_nat Z.eqb negb].
+      rewrite Hch1. cbn [zlen length Z.of_nat Z.sub Z.eqb Z.opp].
+      eexists. eexists. split; [reflexivity|].
+      cbn [zlen length Z.of_nat]. replace (F + 0) with F by lia.
+      split; [|split; [reflexivity | reflexivity]].
+      unfold Inv. cbn [started xbuf skip x_rem y_rem ybuf].
+      rewrite Hnr. replace (Z.max 0 (0 - 0 * VV)) with 0 by lia.
+      rewrite Hy0, HF0 in *.
+      assert (Hxsch : xs1 = xs ++ ch).
+      { unfold xs1. rewrite Hcl. now rewrite zfirstn_all by lia. }
+      rewrite Hxsch.
+      repeat split; try lia; try assumption.
+      rewrite zlen_app. lia.
+    - (* skip exhausted *)
+      assert (Hsk0 : skip K st - consumed = 0) by (unfold consumed in *; lia).
+      rewrite Hsk0.
+      assert (Hpos : zlen xs1 - x_rem K st = off c + F * SS + y_rem K st) by lia.
+      assert (Hy2 : 0 <= y_rem K st < 2 * SS) by lia.
+      assert (HV : 0 < VV) by lia.
+      assert (Hnr : 0 <= num_raw) by (unfold num_raw; pose proof (zlen_nonneg ch1); lia).
+      assert (Hnd : 0 <= nd).
+      { assert (0 <= num_raw / VV) by (apply Z.div_pos; lia).
+        unfold nd. destruct (_ <? _); lia. }
+      destruct (dft_loop_spec xs1 ch1 F (x_rem K st) (y_rem K st) nf Hxr Hy2 Hpos eq_refl
+                              (Z.to_nat nd) 0 (mkL K (zlastn DD (Z0 ++ xs1)) (ybuf K st) (y_rem K st) 0 []))
+        as (ls & El & IL).
+      { lia. }
+      { intros j Hj. apply (iterations_valid SS VV num_raw (y_rem K st) j HS HV Hnr Hy2).
+        fold nf. fold np. fold nd. lia. }
+      { unfold LInv. cbn [l_xbuf l_ybuf l_yrem l_copied l_frames zlen length Z.of_nat].
+        unfold PP. replace (0 * VV) with 0 by lia. rewrite Z.min_l by (fold num_raw; lia).
+        rewrite zfirstn_nonpos by lia. rewrite app_nil_r.
+        repeat split; try lia.
+        rewrite Hyb. rewrite HX. replace (F + 0) with F by lia.
+        symmetry. apply ybuf_of_prefix.
+        destruct (Z_lt_ge_dec 0 (skip K st)) as [Hp | Hp].
+        - left. destruct Hskip as (_ & -> & _); lia.
+        - right. lia. }
+      fold num_raw in El. fold nf in El. rewrite El. cbn [bind].
+      replace (0 + Z.of_nat (Z.to_nat nd)) with nd in IL by lia.
+      destruct IL as (Lxb & Lcop & Lcop2 & Lyr & Lyr2 & LyrS & Lcur & Lfr & Lyb).
+      unfold PP in Lcop2, Lyr. fold num_raw in Lcop2, Lyr.
+      pose proof (zlen_nonneg (l_frames K ls)) as Hcur0.
+      assert (Hcnt : zlen (l_frames K ls) = nf).
+      { apply (final_count SS VV num_raw (y_rem K st) _ (l_yrem K ls) HS HV Hnr Hy2);
+          fold nf; fold np; fold nd; try assumption; lia. }
+      rewrite Hcnt. replace (negb (nf =? nf)) with false by lia.
+      eexists. eexists. split; [reflexivity|].
+      rewrite Hcnt. rewrite HX in *.
+      split; [|split; [rewrite <- Hcnt; exact Lfr | reflexivity]].
+      pose proof (div_lo num_raw VV HV) as A1. pose proof (div_hi num_raw VV HV) as A2.
+      pose proof (div_lo (num_raw + y_rem K st) SS HS) as B1.
+      pose proof (div_hi (num_raw + y_rem K st) SS HS) as B2.
+      assert (Hndq : num_raw / VV <= nd <= num_raw / VV + 1) by (unfold nd; destruct (_ <? _); lia).
+      assert (HP : Z.max 0 (num_raw - nd * VV) + Z.min (nd * VV) num_raw = num_raw) by lia.
+      unfold Inv. cbn [started xbuf skip x_rem y_rem ybuf].
+      assert (Hxb2 : (if zlen ch1 - l_copied K ls =? 0 then l_xbuf K ls
+                      else zskipn (Z.min DD (zlen ch1 - l_copied K ls)) (l_xbuf K ls)
+                                  ++ zlastn (Z.min DD (zlen ch1 - l_copied K ls)) ch1)
+                     = zlastn DD (Z0 ++ xs ++ ch)).
+      { rewrite <- HX. rewrite Lxb.
+        destruct (zlen ch1 - l_copied K ls =? 0) eqn:E0.
+        - now rewrite zfirstn_all by lia.
+        - destruct (Z_le_gt_dec (zlen ch1 - l_copied K ls) DD).
+          + rewrite Z.min_r by lia.
+            set (A := Z0 ++ xs1 ++ zfirstn (l_copied K ls) ch1).
+            set (B := zskipn (l_copied K ls) ch1).
+            assert (EB : zlastn (zlen ch1 - l_copied K ls) ch1 = B).
+            { unfold zlastn, B. f_equal. lia. }
+            assert (EAB : Z0 ++ xs1 ++ ch1 = A ++ B).
+            { unfold A, B. rewrite <- !app_assoc. now rewrite zfirstn_zskipn. }
+            assert (LB : zlen B = zlen ch1 - l_copied K ls) by (unfold B; rewrite zlen_zskipn; lia).
+            rewrite EB, EAB. rewrite (zlastn_app_shift DD A B).
+            * now rewrite LB.
+            * lia.
+            * apply zlen_Z0_hist.
+            * rewrite LB. lia.
+          + rewrite Z.min_l by lia. rewrite zskipn_all.
+            * cbn [app]. rewrite (app_assoc Z0). symmetry. apply zlastn_app_long; lia.
+            * rewrite zlen_zlastn by lia. pose proof (zlen_Z0_hist (xs1 ++ zfirstn (l_copied K ls) ch1)). lia. }
+      rewrite Hxb2.
+      assert (HFnf : 0 <= nf) by (unfold nf; lia).
+      rewrite Hcnt in Lyr, Lyb, LyrS.
+      assert (Htot : zlen (xs ++ ch) = zlen xs1 + zlen ch1) by (rewrite zlen_app; lia).
+      repeat split; try assumption; try lia.
+      + nia.
+      + unfold nf in *. nia.
+  Qed.
 End Chunk.
